@@ -237,3 +237,23 @@ class SlashFinding(CountedLines):
 
 TARGETS = {"codebasin.file_source:c_cleaner.process": CountedLines(),
            "codebasin.file_source:c_file_source#recorded-findings": SlashFinding()}
+
+
+# ---- recorded findings reported by defect hunting ---------------------------------------------------------------
+from native import recorded as _R      # noqa: E402
+
+
+def _x_hashhash():
+    got = _R.counted_lines("##a\nb\n")
+    return None if got == [1, 2] else ("[1, 2]: `##` is one token, the line is not a directive (gcc -E passes it through)", got)
+
+
+def _x_digit_separator():
+    got = _R.counted_lines("int x = 1'0 + '\"'; /* c\n c */\nint y;\n", ".cpp")
+    return None if got == [1, 3] else ("[1, 3] (gcc -E, C++14 / C23 digit separator: line 2 is comment only)", got)
+
+
+TARGETS["codebasin.file_source:c_file_source#recorded-findings-2"] = _R.Exhibits([
+    ("lines:line-starting-with-##-taken-for-a-directive", "##a / b", _x_hashhash),
+    ("lines:digit-separator-opens-a-character-constant", "int x = 1'0 + '\"'; /* c / c */ / int y;", _x_digit_separator),
+])
